@@ -3,25 +3,25 @@
 From Coq Require Import String.
 Require Import Avro.Model.Base Avro.Model.Schema Avro.Model.GoType Avro.Model.Codec.
 
-Definition sregistry := Z -> option gschema.
+Definition sregistry := rkey -> option gschema.
 
 Definition gs_nullable (s : gschema) : gschema := GS (b "union") None [gs_prim "null"; s].
 
 (* time.RegisterCodecs + null.RegisterCodecs *)
-Definition sreg_std : sregistry := fun id =>
-  if id =? 1 then Some (gs_nullable (gs_prim "string"))
-  else if id =? 2 then Some (gs_nullable (gs_prim "long"))
-  else if id =? 3 then Some (gs_nullable (gs_prim "boolean"))
-  else if id =? 4 then Some (gs_nullable (gs_prim "double"))
-  else if id =? 5 then Some (gs_nullable (gs_prim "string"))
-  else if id =? 6 then Some (gs_nullable (gs_prim "string"))
-  else None.
+Definition sreg_std : sregistry := fun k =>
+  match k with
+  | RWrap WTime | RWrap WNullString | RWrap WNullTime => Some (gs_nullable (gs_prim "string"))
+  | RWrap WNullInt => Some (gs_nullable (gs_prim "long"))
+  | RWrap WNullBool => Some (gs_nullable (gs_prim "boolean"))
+  | RWrap WNullFloat => Some (gs_nullable (gs_prim "double"))
+  | RNamed _ => None
+  end.
 
 Definition sreg_set (reg : sregistry) (id : Z) (s : gschema) : sregistry :=
-  fun i => if i =? id then Some s else reg i.
+  fun k => match k with RNamed i => if i =? id then Some s else reg k | _ => reg k end.
 
 Definition sreg_lookup (reg : sregistry) (t : gtype) : option gschema :=
-  match t with TWrap w => reg (wrap_id w) | TNamed id _ => reg id | _ => None end.
+  match t with TWrap w => reg (RWrap w) | TNamed id _ => reg (RNamed id) | _ => None end.
 
 Definition gs_type (s : gschema) : ident := match s with GS ty _ _ => ty end.
 
